@@ -165,11 +165,12 @@ def cbmc_cmd(h, tier, gb):
     cmd = ["cbmc", gb, "--function", h["entry"], "--unwind", str(tier_opt(h, tier, "unwind", 2))]
     k = int(defines_for(h, tier).get("VP_MEM_K", 128)) + 1
     big = int(defines_for(h, tier).get("VP_MEM_BIG", 0)) // 8 + 1
-    uws = {"memcpy.0": k, "memcpy.1": k, "memcpy.2": big, "memmove.0": k, "memmove.1": k, "memmove.2": k, "memmove.3": k, "memmove.4": big, "memmove.5": big, "memset.0": k, "memset.1": big, "realloc.0": int(defines_for(h, tier).get("VP_REALLOC_K", 64)) + 1}
+    uws = {"memcpy.0": k, "memcpy.1": k, "memcpy.2": big, "memmove.0": k, "memmove.1": k, "memmove.2": k, "memmove.3": k, "memmove.4": big, "memmove.5": big, "memset.0": k, "memset.1": k, "memset.2": big, "realloc.0": int(defines_for(h, tier).get("VP_REALLOC_K", 64)) + 1}
     for i in range(10):
         uws["vsnprintf.%d" % i] = 48
         uws["vp_put_unsigned.%d" % i] = 26
         uws["vsscanf.%d" % i] = 24
+    uws["__ctype_b_loc.0"] = 258
     uws.update(h.get("unwindset", {}))
     t = h["tiers"][tier]
     if isinstance(t, dict):
